@@ -30,7 +30,7 @@ from pyramid.request import Request
 from pyramid.response import Response
 from pyramid.security import Allowed, Denied, NO_PERMISSION_REQUIRED
 from pyramid.tweens import EXCVIEW
-from pyramid.predicates import CustomPredicate
+from pyramid.predicates import CustomPredicate, PhysicalPathPredicate
 
 import vfutil
 
@@ -265,7 +265,9 @@ def snapshot(w, request):
         'root': None if root is None else getattr(root, '_vf_key', [None, -1])[1],
         'trav': None if 'view_name' not in d else {
             'context': list(getattr(ctx, '_vf_key', [None, None, ['?']])[2]), 'croot': getattr(ctx, '_vf_key', [None, -1])[1],
-            'view_name': d.get('view_name'), 'subpath': list(d.get('subpath', ())), 'traversed': list(d.get('traversed', ()))},
+            'view_name': d.get('view_name'), 'subpath': list(d.get('subpath', ())), 'traversed': list(d.get('traversed', ())),
+            'virtual_root': list(getattr(d.get('virtual_root'), '_vf_key', [None, None, ['?']])[2]),
+            'virtual_root_path': list(d.get('virtual_root_path', ()))},
     }
 
 
@@ -284,25 +286,30 @@ def req_iface_id(w, iface):
     return 60
 
 
-def build_tree(w, ri, nd, pos):
+def build_tree(w, ri, nd, pos, parent=None):
     n = w.classes[nd['cls']]()
     for i in nd.get('provides', []):
         alsoProvides(n, IFACES[i])
     n._vf_key = ['res', ri, list(pos)]
+    n.__name__ = pos[-1] if pos else ''          # location-aware: containment= / physical_path= walk __parent__ / __name__
+    n.__parent__ = parent
     for name, sub in nd.get('kids', []):
-        dict.__setitem__(n, name, build_tree(w, ri, sub, pos + [name]))
+        dict.__setitem__(n, name, build_tree(w, ri, sub, pos + [name], n))
     return n
 
 
-def pred_kwargs(st):
+def pred_kwargs(w, st):
     o = st.get('opts', {})
     notted = set(st.get('not', []))
     kw = {}
-    for name in ('xhr', 'is_authenticated', 'request_method', 'request_param', 'header', 'match_param'):
+    for name in ('xhr', 'is_authenticated', 'request_method', 'request_param', 'header', 'match_param', 'path_info', 'physical_path'):
         if name in o:
             v = o[name]
             v = tuple(v) if isinstance(v, list) else v
             kw[name] = not_(v) if name in notted else v
+    if 'containment' in o:
+        v = ref_class(w, o['containment'])
+        kw['containment'] = not_(v) if 'containment' in notted else v
     if 'custom' in o:
         kw['custom_predicates'] = tuple(CUSTOMS[i] for i in o['custom'])
     return kw
@@ -318,7 +325,7 @@ def build_app(app):
 
     def factory(i, hook):
         def f(request):
-            w.log['hooks'].append(hook)
+            w.log['hooks'].append([hook, snapshot(w, request)])
             exc = app['roots'][i].get('raises')
             if exc is not None:
                 raise make_exc(w, exc)
@@ -335,7 +342,7 @@ def build_app(app):
     config.add_tween('harness_x01.over_factory', over=EXCVIEW)
     config.add_tween('harness_x01.under_factory', under=EXCVIEW)
     for ev, nm in ((NewRequest, 'NewRequest'), (BeforeTraversal, 'BeforeTraversal'), (ContextFound, 'ContextFound')):
-        config.add_subscriber((lambda event, nm=nm: w.log['hooks'].append(nm)), ev)
+        config.add_subscriber((lambda event, nm=nm: w.log['hooks'].append([nm, snapshot(w, event.request)])), ev)
     for r in app['routes']:
         rkw = {}
         if r.get('factory') is not None:
@@ -347,7 +354,13 @@ def build_app(app):
         tag, body = st['tag'], st['body']
 
         def view(context, request, tag=tag, body=body):
+            d = request.__dict__
+            ei = d.get('exc_info')
             w.log['seen'].append({'tag': tag, 'context': ctx_key(w, context), 'snap': snapshot(w, request),
+                                  'excpath': w.log.get('caught') is not None,
+                                  'saw': [cls_id(w, context) if isinstance(context, BaseException) else 'resource',
+                                          None if d.get('exception') is None else cls_id(w, d['exception']),
+                                          None if not ei else cls_id(w, ei[1]), None if 'response' not in d else 'response'],
                                   'exception': None if getattr(request, 'exception', None) is None else cls_id(w, request.exception)})
             if body[0] == 'raise':
                 raise make_exc(w, body[1])
@@ -355,7 +368,7 @@ def build_app(app):
             resp.headers['X-Tag'] = 'V%d' % tag
             return resp
         view.__name__ = 'v%d' % tag
-        pk = pred_kwargs(st)
+        pk = pred_kwargs(w, st)
         if st.get('route'):
             pk['route_name'] = st['route']
         kind = st['kind']
@@ -393,6 +406,8 @@ def make_environ(rq):
         env.pop('PATH_INFO', None)
     else:
         env['PATH_INFO'] = bytes(rq['path']).decode('latin-1')
+    if rq.get('vroot') is not None:
+        env['HTTP_X_VHM_ROOT'] = bytes(rq['vroot']).decode('latin-1')
     env['QUERY_STRING'] = rq.get('qs') or ''
     env['REQUEST_METHOD'] = rq.get('method', 'GET')
     for k, v in rq.get('headers', []):
@@ -430,27 +445,35 @@ def observe(w, case):
             final = ['resp', 'self', int(sh['status'][:3])]
     snap = w.log.get('final') or {}
     caught = w.log.get('caught')
-    names = w.route_names
-    md = snap.get('md')
+    excseen = [x for x in w.log['seen'] if x['excpath']]
+    obs = {'final': final, 'caught': None if caught is None else cls_id(w, caught),
+           'seen': excseen[-1]['saw'] if (excseen and final[:2] != ['resp', 'self']) else None,
+           'hooks': [[nm, canon_snap(w, sn)] for nm, sn in w.log['hooks']]}
+    obs.update(canon_snap(w, snap))
     trav = snap.get('trav')
-    obs = {
-        'final': final, 'caught': None if caught is None else cls_id(w, caught),
-        'route': None if snap.get('route') is None else names.index(snap['route']),
-        'md': None if md is None else sorted([k, 't' if isinstance(v, list) else 's', v] for k, v in md.items()),
-        'rsro': snap.get('rsro'), 'comb': snap.get('comb'), 'root': snap.get('root'),
-        'trav': None if trav is None else {k: trav[k] for k in ('context', 'view_name', 'subpath', 'traversed')},
-        'hooks': list(w.log['hooks']),
-    }
     extra = {'seen': list(w.log['seen']), 'permits': list(w.log['permits']), 'env': env,
              'croot': None if trav is None else trav['croot'],
              'caught_ref': None if caught is None else exc_ref_of(w, caught)}
     return obs, extra
 
 
+TRAV_KEYS = ('context', 'view_name', 'subpath', 'traversed', 'virtual_root', 'virtual_root_path')
+
+
+def canon_snap(w, snap):
+    names = w.route_names
+    md = snap.get('md')
+    trav = snap.get('trav')
+    return {'route': None if snap.get('route') is None else names.index(snap['route']),
+            'md': None if md is None else sorted([k, 't' if isinstance(v, list) else 's', v] for k, v in md.items()),
+            'rsro': snap.get('rsro'), 'comb': snap.get('comb'), 'root': snap.get('root'),
+            'trav': None if trav is None else {k: trav[k] for k in TRAV_KEYS}}
+
+
 # ------------------------------------------------------------------------------------------------------
 # the model's input
 
-def model_preds(st):
+def model_preds(w, st):
     o = st.get('opts', {})
     notted = set(st.get('not', []))
     preds = []
@@ -463,6 +486,15 @@ def model_preds(st):
         if name in o:
             v = o[name]
             add(name, {'l': list(v) if isinstance(v, list) else [v]})
+    if 'path_info' in o:
+        add('path_info', {'s': o['path_info']})
+    if 'containment' in o:
+        add('containment', {'i': ref_id(o['containment']), 'r': str(ref_class(w, o['containment']))})
+    if 'physical_path' in o:
+        v = o['physical_path']
+        rep = PhysicalPathPredicate(tuple(v) if isinstance(v, list) else v, None).text()[len('physical_path = '):]
+        preds.append({'n': 'physical_path', 'not': 'physical_path' in notted,
+                      'v': {'k': 'pp_seq', 'l': v, 'r': rep} if isinstance(v, list) else {'k': 'pp_str', 's': v, 'r': rep}})
     if 'is_authenticated' in o:
         add('is_authenticated', {'b': bool(o['is_authenticated'])})
     for i in o.get('custom', []):
@@ -525,7 +557,7 @@ def model_input(w, case):
     for st in app['stmts']:
         perm = stmt_perm(st)
         views.append({'req': 0 if not st.get('route') else 1 + names.index(st['route']), 'ctx': stmt_ctx_id(st),
-                      'name': st['name'] if st['kind'] == 'view' else '', 'preds': model_preds(st),
+                      'name': st['name'] if st['kind'] == 'view' else '', 'preds': model_preds(w, st),
                       'perm': 'unset' if perm is None else ('npr' if perm == 'npr' else 'named'),
                       'isexc': stmt_isexc(st), 'xonly': stmt_xonly(st), 'tag': st['tag'],
                       'body': ['respond'] if st['body'][0] == 'respond' else ['raise', exc_record(w, make_exc(w, st['body'][1]))],
@@ -540,14 +572,17 @@ def model_input(w, case):
     except (UnicodeDecodeError, KeyError):
         upath = ''
     envl = sorted([k, v] for k, v in env.items() if isinstance(v, str) and (k.startswith('HTTP_') or k in ('CONTENT_TYPE', 'CONTENT_LENGTH')))
+    pats = sorted({st['opts']['path_info'] for st in app['stmts'] if 'path_info' in st.get('opts', {})})
+    retable = [[p, upath, re.compile(p).match(upath) is not None] for p in pats]
     base = {'method': wr.method, 'get': [[k, v] for k, v in wr.GET.items()], 'post': [], 'env': envl, 'path': upath, 'md': None,
-            'auth': bool(rq.get('auth')) and bool(app.get('policy', True)), 'custom': list(rq.get('custom', [])), 're': [], 'accq': [],
+            'auth': bool(rq.get('auth')) and bool(app.get('policy', True)), 'custom': list(rq.get('custom', [])), 're': retable, 'accq': [],
             'lineage': [], 'phys': None, 'permitted': True, 'rsro': [], 'csro': [], 'vn': ''}
     allowed = [[key_json(w, k), PERM_IDS[p]] for k, p in rq.get('allowed', [])]
     return {'routes': routes, 'roots': roots, 'defroot': app['defroot'], 'views': views, 'world': world,
             'urldecode': exc_record(w, make_exc(w, ['b', 'URLDecodeError'])), 'keyerror': exc_record(w, KeyError('PATH_INFO')),
             'allowed': allowed,
-            'req': {'path': rq.get('path'), 'rp': list(rq.get('rp', [])), 'base': base}}
+            'unicodedecode': exc_record(w, UnicodeDecodeError('utf-8', b'\xff', 0, 1, 'harness')),
+            'req': {'path': rq.get('path'), 'vroot': rq.get('vroot'), 'rp': list(rq.get('rp', [])), 'base': base}}
 
 
 def canon_model_out(w, mo):
@@ -557,16 +592,22 @@ def canon_model_out(w, mo):
 
     def t(cs):
         return ''.join(chr(c) for c in cs)
-    md = mo.get('md')
-    trav = mo.get('trav')
-    return {
-        'final': mo['final'], 'caught': mo['caught'], 'route': mo['route'],
-        'md': None if md is None else sorted([t(e[0]), e[1], ([t(x) for x in e[2]] if e[1] == 't' else t(e[2]))] for e in md),
-        'rsro': mo['rsro'], 'comb': mo['comb'], 'root': mo['root'],
-        'trav': None if trav is None else {'context': [t(x) for x in trav['context']], 'view_name': t(trav['view_name']),
-                                          'subpath': [t(x) for x in trav['subpath']], 'traversed': [t(x) for x in trav['traversed']]},
-        'hooks': [h for h in mo['hooks'] if h != 'traverser'],
-    }
+
+    def attrs(a):
+        md = a.get('md')
+        trav = a.get('trav')
+        return {'route': a['route'],
+                'md': None if md is None else sorted([t(e[0]), e[1], ([t(x) for x in e[2]] if e[1] == 't' else t(e[2]))] for e in md),
+                'rsro': a['rsro'], 'comb': a['comb'], 'root': a['root'],
+                'trav': None if trav is None else {
+                    'context': [t(x) for x in trav['context']], 'view_name': t(trav['view_name']),
+                    'subpath': [t(x) for x in trav['subpath']], 'traversed': [t(x) for x in trav['traversed']],
+                    'virtual_root': [t(x) for x in trav['virtual_root']], 'virtual_root_path': [t(x) for x in trav['virtual_root_path']]}}
+    # the default exception-response view is pyramid's own function: what it saw is not observable
+    out = {'final': mo['final'], 'caught': mo['caught'], 'seen': None if mo['final'][:2] == ['resp', 'self'] else mo['seen'],
+           'hooks': [[h[0], attrs(h[1])] for h in mo['hooks'] if h[0] != 'traverser']}
+    out.update(attrs(mo))
+    return out
 
 
 # ------------------------------------------------------------------------------------------------------
@@ -603,7 +644,7 @@ def route_regex(pattern):
     return re.compile(rx + r'\Z', re.S if False else 0), star
 
 
-def oracle_preds_hold(st, rq, md, policy):
+def oracle_preds_hold(w, st, rq, md, policy, cinfo):
     o = st.get('opts', {})
     notted = set(st.get('not', []))
     params = {}
@@ -629,8 +670,17 @@ def oracle_preds_hold(st, rq, md, policy):
             return all(h.upper().replace('-', '_') in hdrs for h in vals)
         if name == 'match_param':
             return bool(md) and all(md.get(s.partition('=')[0]) == s.partition('=')[2] for s in vals)
+        if name == 'path_info':
+            return cinfo.get('upath') is not None and re.match(v, cinfo['upath']) is not None
+        if name == 'containment':
+            cls = ref_class(w, v)
+            return any((isinstance(loc, cls) if isinstance(cls, type) else cls.providedBy(loc)) for loc in cinfo.get('lineage') or [])
+        if name == 'physical_path':
+            want = tuple(v) if isinstance(v, list) else ('',) + tuple(x for x in v.split('/') if x)
+            return cinfo.get('phys') is not None and tuple(cinfo['phys']) == want
         raise KeyError(name)
-    for name in ('xhr', 'is_authenticated', 'request_method', 'request_param', 'header', 'match_param'):
+    for name in ('xhr', 'is_authenticated', 'request_method', 'request_param', 'header', 'match_param', 'path_info', 'containment',
+                 'physical_path'):
         if name in o:
             r = one(name)
             if name in notted:
@@ -652,8 +702,10 @@ def oracle(w, case):
     policy = bool(app.get('policy', True))
     routes = app['routes']
     allowed = {json.dumps(a) for a in rq.get('allowed', [])}
-    hooks = ['NewRequest']
+    import copy
     attrs = {'route': None, 'md': None, 'rsro': [0, 50], 'comb': [0, 50], 'root': None, 'trav': None}
+    hooks = [['NewRequest', copy.deepcopy(attrs)]]
+    cinfo = {'upath': None, 'lineage': None, 'phys': None}
 
     def sro_of_exc(ref):
         return [spec_id(w, s) for s in providedBy(make_exc(w, ref)).__sro__]
@@ -695,7 +747,7 @@ def oracle(w, case):
                     slot = slot + ['default']
                 if slot:
                     registered = True
-                qual = [st for st in slot if st == 'default' or oracle_preds_hold(st, rq, md, policy)]
+                qual = [st for st in slot if st == 'default' or oracle_preds_hold(w, st, rq, md, policy, cinfo if not excpath else dict(cinfo, lineage=None, phys=None))]
                 if qual:
                     out = []
                     for st in qual:
@@ -742,6 +794,7 @@ def oracle(w, case):
         path = '/' if raw is None else (bytes(raw).decode('utf-8') or '/')
     except UnicodeDecodeError:
         path = None
+    cinfo['upath'] = None if raw is None else path
     hit = None
     if routes:
         if path is None:
@@ -766,7 +819,7 @@ def oracle(w, case):
                      rsro=[1 + i, 0, 50] if r.get('ugv') else [1 + i, 50], comb=[20 + i, 1 + i, 0, 50])
         if r.get('factory') is not None:
             ri, hook = r['factory'], 'routefactory'
-    hooks += ['BeforeTraversal', hook]
+    hooks += [['BeforeTraversal', copy.deepcopy(attrs)], [hook, copy.deepcopy(attrs)]]
     root = app['roots'][ri]
     if root.get('raises') is not None:
         return result(render(root['raises'], md, attrs['comb']))
@@ -781,6 +834,13 @@ def oracle(w, case):
         if path is None:
             return result(render(['b', 'URLDecodeError'], md, attrs['comb']))
         segs, sub0 = split_path(path), []
+    vt = []
+    if rq.get('vroot') is not None:
+        try:
+            vt = split_path(bytes(rq['vroot']).decode('utf-8'))
+        except UnicodeDecodeError:
+            return result(render(['b', 'UnicodeDecodeError'], md, attrs['comb']))
+        segs = vt + segs
     node, pos, k = root['tree'], [], 0
     view_name, subpath = '', sub0
     while k < len(segs):
@@ -793,12 +853,16 @@ def oracle(w, case):
             view_name, subpath = s, segs[k + 1:]
             break
         node, pos, k = kids[s], pos + [s], k + 1
-    attrs['trav'] = {'context': pos, 'view_name': view_name, 'subpath': subpath, 'traversed': segs[:k]}
-    hooks.append('ContextFound')
+    attrs['trav'] = {'context': pos, 'view_name': view_name, 'subpath': subpath, 'traversed': segs[:k],
+                     'virtual_root': vt if k >= len(vt) else [], 'virtual_root_path': vt}
+    hooks.append(['ContextFound', copy.deepcopy(attrs)])
     # 3. view lookup + permission
     res = w.roots[ri]
+    lineage = [res]
     for s in pos:
         res = dict.__getitem__(res, s)
+        lineage.insert(0, res)
+    cinfo['lineage'], cinfo['phys'] = lineage, [''] + pos
     csro = [spec_id(w, s) for s in providedBy(res).__sro__]
     finals = []
     for r in lookup(False, attrs['rsro'], csro, view_name, md, ['res', ri, pos]):
@@ -829,16 +893,28 @@ FINDINGS = {
 def judge(w, case, obs, extra):
     """None, or a violation dict: the implementation's observation is not acceptable under the declarative reading"""
     exp = oracle(w, case)
-    got_attrs = {k: obs[k] for k in ('route', 'md', 'rsro', 'comb', 'root', 'trav')}
-    want = dict(exp['attrs'])
-    if got_attrs['rsro'] is None:                 # NewRequest never ran?  (cannot happen)
-        want = dict(want)
+    vr = case['req'].get('vroot') is not None
+
+    def er(a):
+        # under a virtual root `traversed` is C02's known finding F-C02a: not X01's to judge
+        if vr and a.get('trav') is not None:
+            a = dict(a, trav=dict(a['trav'], traversed=None))
+        return a
+    got_attrs = er({k: obs[k] for k in ('route', 'md', 'rsro', 'comb', 'root', 'trav')})
+    want = er(dict(exp['attrs']))
+    got_hooks = [[n, er(a)] for n, a in obs['hooks']]
+    want_hooks = [[n, er(a)] for n, a in exp['hooks']]
     detail = None
     if got_attrs != want:
         bad = [k for k in want if want[k] != got_attrs[k]]
         detail = 'request attributes differ from the reading: %s' % ', '.join(bad)
-    elif obs['hooks'] != exp['hooks']:
+    elif [h[0] for h in got_hooks] != [h[0] for h in want_hooks]:
         detail = 'order of NewRequest / BeforeTraversal / factory / ContextFound differs'
+    elif got_hooks != want_hooks:
+        bad = [n for (n, a), (_, b) in zip(got_hooks, want_hooks) if a != b]
+        detail = 'attributes visible to the subscriber / factory at %s differ from the reading' % ', '.join(bad)
+    elif obs['seen'] is not None and obs['seen'] != [obs['caught'], obs['caught'], obs['caught'], None]:
+        detail = 'the exception view did not see the caught exception as context / request.exception / exc_info'
     else:
         acc = [(f, c, fid) for f, c, fid in exp['finals'] if f == obs['final'] and c == obs['caught']]
         if not acc:
@@ -856,15 +932,14 @@ def judge(w, case, obs, extra):
                 snap = mine[-1]['snap']
                 names = [r['name'] for r in case['app']['routes']]
                 sroute = None if snap['route'] is None else names.index(snap['route'])
-                strav = None if snap['trav'] is None else {k: snap['trav'][k] for k in ('context', 'view_name', 'subpath', 'traversed')}
-                if sroute != want['route'] or strav != want['trav'] or snap['root'] != want['root']:
+                strav = None if snap['trav'] is None else {k: snap['trav'][k] for k in TRAV_KEYS}
+                if sroute != want['route'] or er({'trav': strav})['trav'] != want['trav'] or snap['root'] != want['root']:
                     detail = 'the answering body saw other attributes than the reading says'
-        # a refused view's body never ran
-        if detail is None and obs['caught'] == BUILTIN_IDS['HTTPForbidden']:
-            pass
+        if detail is None and obs['caught'] is not None and obs['final'][:2] == ['resp', 'view'] and obs['seen'] is None:
+            detail = 'an exception view answered but no exception-view body was seen running'
     if detail is None:
         return None
-    return {'case': case, 'impl': obs, 'expected': {'attrs': want, 'hooks': exp['hooks'],
+    return {'case': case, 'impl': obs, 'expected': {'attrs': want, 'hooks': want_hooks,
                                                     'finals': [[f, c] for f, c, fid in exp['finals'] if fid not in FINDINGS]},
             'detail': detail}
 
@@ -915,6 +990,19 @@ def gen_xclasses(rng):
             bases = [['b', rng.choice(XBASES)]]
         out.append({'bases': bases})
     return out
+
+
+def gen_ctx_opts(rng, nclasses, pinfo):
+    """predicates that read the traversal result / the path (only for statements whose context is a resource)"""
+    o = {}
+    r = rng.random()
+    if r < 0.10:
+        o['containment'] = rng.choice([['c', rng.randrange(nclasses)], ['i', rng.choice([1, 2])]])
+    elif r < 0.20:
+        o['physical_path'] = rng.choice(['/', '/a', '/a/b', '/b', ['', 'a'], ['', 'x'], ['', 'a', 'b'], 'a/', '/c'])
+    if pinfo and rng.random() < 0.25:
+        o['path_info'] = rng.choice(['/r', '/a', '.*x$', '/t\\d/', '/$', '.*/v'])
+    return o
 
 
 def gen_opts(rng, rich):
@@ -968,6 +1056,7 @@ def gen_app(rng, big=False):
         if routes[-1]['factory'] is None:
             routes[-1].pop('factory')
     stmts, tag = [], 1
+    pinfo = rng.random() < 0.3        # applications with path_info= predicates get no undecodable / missing PATH_INFO
     nviews = rng.randint(3, 8) if not big else rng.randint(8, 14)
     seen_keys = {}
     for _ in range(nviews):
@@ -975,6 +1064,11 @@ def gen_app(rng, big=False):
         if rng.random() < 0.06:
             ctx = rng.choice([['u', rng.randrange(len(xclasses))], ['b', rng.choice(CTX_BUILTINS)]])
         o, notted = gen_opts(rng, big)
+        if not ref_is_exc(ctx):
+            o.update(gen_ctx_opts(rng, len(classes), pinfo))
+            for k in ('containment', 'physical_path', 'path_info'):
+                if k in o and rng.random() < 0.1:
+                    notted.append(k)
         st = {'kind': 'view', 'tag': tag, 'ctx': ctx, 'name': rng.choice(VIEW_NAMES), 'opts': o, 'not': notted,
               'perm': rng.choice([None, None, None, 'p1', 'p1', 'p2', 'npr']),
               'body': ['respond'] if rng.random() < 0.8 else ['raise', rng.choice([['u', rng.randrange(len(xclasses))], ['b', 'ValueError'],
@@ -1006,7 +1100,7 @@ def gen_app(rng, big=False):
         # the default permission makes same-slot statements with and without `permission=` both protected: coherent
         pass
     return {'classes': classes, 'xclasses': xclasses, 'roots': roots, 'defroot': rng.randrange(nroots) if rng.random() < 0.3 else 0,
-            'routes': routes, 'stmts': stmts, 'policy': rng.random() < 0.9, 'defperm': defperm}
+            'routes': routes, 'stmts': stmts, 'policy': rng.random() < 0.9, 'defperm': defperm, 'pinfo': pinfo}
 
 
 def tree_paths(nd, pos, out):
@@ -1063,6 +1157,8 @@ def gen_request(rng, app):
             path += '/'
     raw = list(path.encode('utf-8'))
     x = rng.random()
+    if app.get('pinfo'):
+        x = 1.0
     if x < 0.03:
         raw = raw + [0xff]
     elif x < 0.05:
@@ -1070,6 +1166,18 @@ def gen_request(rng, app):
     elif x < 0.07:
         raw = []
     rq['path'] = raw
+    if rng.random() < 0.12:
+        # a virtual root: an existing resource, a missing one, the root, with a trailing slash / dot segments, not UTF-8
+        vp = rng.choice(tree_paths(app['roots'][ri]['tree'], [], []))
+        v = '/' + '/'.join(vp)
+        y = rng.random()
+        if y < 0.15:
+            v += '/zz'
+        elif y < 0.3:
+            v += '/'
+        elif y < 0.4:
+            v += '/../' + (vp[-1] if vp else 'a')
+        rq['vroot'] = list(v.encode('utf-8')) + ([0xff] if rng.random() < 0.06 else [])
     if rng.random() < 0.4:
         rq['qs'] = rng.choice(['a=1', 'a=2', 'b=1', 'a=1&b=2', 'c=3'])
     if rng.random() < 0.3:
@@ -1241,7 +1349,8 @@ def run(ctx):
     dist = {'final': {}, 'caught': {}, 'routes': {}, 'route_matched': 0, 'route_with_factory': 0, 'ugv_route_matched': 0,
             'md_keys': {}, 'context_depth': {}, 'view_name': {}, 'subpath_len': {}, 'stages_working': {}, 'hooks_len': {},
             'permits_asked': 0, 'refused_403': 0, 'undecodable': 0, 'spec_vs_model_disagree': 0, 'incoherent': 0, 'not_wf': 0,
-            'finding_hits': {}, 'stmts': {}}
+            'finding_hits': {}, 'stmts': {}, 'vroot_requests': 0, 'vroot_traversed_differs_from_reading': 0, 'vroot_undecodable': 0,
+            'traversal_predicates_in_app': {}, 'exception_view_seen_checked': 0}
     samples = []
     for case, (w, obs, extra, v, minfo), mo in zip(cases, results, model):
         key = vfutil.canon(case)
@@ -1259,14 +1368,27 @@ def run(ctx):
                 dist['incoherent'] += 1
             if not mo.get('wf', True):
                 dist['not_wf'] += 1
-            if mo['model'] != mo['spec'] and mo.get('coherent', True) and mo.get('wf', True) and case['req'].get('path') is not None:
+            vr = case['req'].get('vroot') is not None
+            if mo['model_erased' if vr else 'model'] != mo['spec_erased' if vr else 'spec'] and mo.get('coherent', True) and mo.get('wf', True):
                 dist['spec_vs_model_disagree'] += 1
                 mism.append({'case': case, 'impl': obs, 'model': canon_model_out(w, mo['model']), 'spec': canon_model_out(w, mo['spec']),
-                             'diff': ['model != spec although coherent and well-formed: handle_eq_spec would be false']})
+                             'diff': ['model != spec (up to traversed under a virtual root) although coherent and well-formed: handle_eq_spec would be false']})
         if v:
             viol.append(v)
             if v.get('finding'):
                 vfutil.bump(dist['finding_hits'], v['finding'])
+        if case['req'].get('vroot') is not None:
+            dist['vroot_requests'] += 1
+            if mo is not None and 'error' not in mo and mo['model'] != mo['spec']:
+                dist['vroot_traversed_differs_from_reading'] += 1       # C02's F-C02a leaking through (known, partial theorem)
+            if obs['caught'] == BUILTIN_IDS['UnicodeDecodeError']:
+                dist['vroot_undecodable'] += 1
+        for stx in case['app']['stmts']:
+            for k in ('containment', 'physical_path', 'path_info', 'match_param'):
+                if k in stx.get('opts', {}):
+                    vfutil.bump(dist['traversal_predicates_in_app'], k)
+        if obs['seen'] is not None:
+            dist['exception_view_seen_checked'] += 1
         st = stage_stats(case, obs, extra)
         nwork = sum(1 for x in st.values() if x)
         vfutil.bump(dist['stages_working'], nwork)
